@@ -37,6 +37,8 @@ var yamlShapes = []string{
 	"- ? [complex, key]\n  : v\n", "- command: x\n  unknown_field: 1\n  niche: n\n", "\xef\xbb\xbf- command: bom\n", "- command: \u2028line sep\n",
 }
 
+var metaWords = []string{"c++", "printf(", "[options", "a|b", "x{2", "**", "?)", "(unclosed", "back\\slash", "$HOME", "^start", "end$", "a+b", "[[", "{{.Names}}", "*.go", "%d%s"}
+
 func genFileContent(r *Rng) string {
 	switch x := r.Intn(100); {
 	case x < 35:
@@ -44,7 +46,13 @@ func genFileContent(r *Rng) string {
 	case x < 60: // well-formed list produced by the encoder
 		var cmds []database.Command
 		for i, n := 0, r.Intn(8); i < n; i++ {
-			cmds = append(cmds, genCommand(r))
+			c := genCommand(r)
+			if r.Chance(1, 2) { // texts with regexp / format / shell metacharacters
+				c.Description += " " + Pick(r, metaWords)
+				c.Command += " " + Pick(r, metaWords)
+				c.Keywords = append(c.Keywords, Pick(r, metaWords))
+			}
+			cmds = append(cmds, c)
 		}
 		b, _ := yaml.Marshal(cmds)
 		s := string(b)
@@ -126,9 +134,21 @@ var entryPoints = []string{"universal", "search", "options", "pipeline", "fuzzy"
 func genCrash(r *Rng, tier string, idx int, args map[string]string) []string {
 	var ops []string
 	for i, n := 0, r.Range(1, 3); i < n; i++ {
-		ops = append(ops, "load "+Hx(genFileContent(r)))
+		content := genFileContent(r)
+		ops = append(ops, "load "+Hx(content))
+		own := strings.Fields(content) // raw words of the file (punctuation kept): queries that hit the loaded texts
 		for j, m := 0, r.Range(2, 8); j < m; j++ {
-			ops = append(ops, "q "+Pick(r, entryPoints)+" "+Hx(hostileQuery(r))+" "+optsTokens(hostileOptions(r)))
+			q := hostileQuery(r)
+			if len(own) > 0 && r.Chance(2, 5) {
+				ws := make([]string, r.Range(1, 3))
+				for k := range ws {
+					ws[k] = Pick(r, own)
+				}
+				q = strings.Join(ws, " ")
+			} else if r.Chance(1, 6) {
+				q = Pick(r, metaWords) + " " + Pick(r, metaWords)
+			}
+			ops = append(ops, "q "+Pick(r, entryPoints)+" "+Hx(q)+" "+optsTokens(hostileOptions(r)))
 		}
 	}
 	if r.Chance(1, 3) {
